@@ -3,7 +3,8 @@
 (* Trace validation for C12.  A record is one base source (tokens          *)
 (* separated by single blanks) with what the parser returned for it        *)
 (* (acceptance + whitespace-free skeleton), and a list of variants: the    *)
-(* blank at one inter-token position (or at all positions) replaced by a   *)
+(* blank at one inter-token position (or at all positions, or at one position *)
+(* plus further ones, x.also) replaced by a                                *)
 (* trivia run.  TLC checks that every run is in the language of Trivia and *)
 (* was rendered as the specification renders it, and that acceptance and   *)
 (* skeleton of every variant equal those of the base.                      *)
@@ -11,9 +12,13 @@
 EXTENDS Trivia, Json, IOUtils
 Rec == ndJsonDeserialize(IOEnv.TRACE)
 
+\* x.also: further placements of the same variant (a `resetall at one position together with a comment or
+\* directive at a later one); each of them has to be a run of the language, too.
 JudgeVariant(base, x) ==
-  IF ~WellFormed(x.run, x.top, x.prev) THEN <<"run is not in the trivia language", ToString(x.run)>>
-  ELSE IF RunText(x.run) # x.text THEN <<"run was not rendered as the specification renders it", ToString(x.run)>>
+  IF ~WellFormed(x.run, x.top, x.prev) \/ \E i \in 1..Len(x.also) : ~WellFormed(x.also[i].run, x.also[i].top, x.also[i].prev)
+    THEN <<"run is not in the trivia language", ToString(x.run)>>
+  ELSE IF RunText(x.run) # x.text \/ \E i \in 1..Len(x.also) : RunText(x.also[i].run) # x.also[i].text
+    THEN <<"run was not rendered as the specification renders it", ToString(x.run)>>
   ELSE IF x.res.outcome \notin {"ok", "err"} THEN <<"outcome is not Ok or a structured Error", x.res.outcome, ToString(x.run), ToString(x.pos)>>
   ELSE IF x.res.outcome # base.outcome THEN <<"trivia changes acceptance", ToString(x.run), "at position", ToString(x.pos), base.outcome, x.res.outcome>>
   ELSE IF base.outcome = "ok" /\ x.res.skel # base.skel THEN <<"trivia changes the tree", ToString(x.run), "at position", ToString(x.pos)>>
